@@ -948,6 +948,12 @@ impl Recv {
                 stream.id,
             );
             self.release_connection_capacity(sz, &mut None);
+            // The receive half may have just ended: no further PUSH_PROMISE
+            // can arrive, so a task waiting for one has to be told (there
+            // is no `RecvStream` left that would notice).
+            if stream.state.is_recv_end_stream() {
+                stream.notify_push();
+            }
             return Ok(());
         }
 
